@@ -144,10 +144,7 @@ theorem G_fieldDefI (d : FieldDef) (h : WFFieldDef d) : G (fieldDefI d) := by
   apply G_withDescMemberI
   have h1 : G (nI d.name.value ++ argDefsI d.args) := G_app (G_nI hn) (G_argDefsI d.args ha) (sd_argDefsI _)
   have h2 : A (nI d.name.value ++ argDefsI d.args ++ colonSpI) := GA_app h1 A_colonSpI (by decide)
-  have hsd : StartsDelim (render (argDefsI d.args ++ colonSpI)) := by
-    rw [render_append]; exact sd_append (sd_argDefsI _) (by decide)
-  have h2' : A (nI d.name.value ++ argDefsI d.args ++ colonSpI) := h2
-  exact G_app (AG_app h2' (G_typeI d.type ht)) (G_spDirectives d.dirs hd) (sd_spDirectives _)
+  exact G_app (AG_app h2 (G_typeI d.type ht)) (G_spDirectives d.dirs hd) (sd_spDirectives _)
 
 theorem G_enumValueDefI (d : EnumValueDef) (h : WFEnumValueDef d) : G (enumValueDefI d) := by
   apply G_withDescMemberI
